@@ -75,11 +75,15 @@ func c03Oracle(w *World, sig map[string]string, shape hookShape, declared []*Res
 				}
 			}
 			adopted := map[string]bool{}
+			released := map[string]bool{}
 			for _, q := range sy.Reqs {
 				if q.Arrival < h.Arrival && q.Verb == "update" && accepted(q) && q.Pre != nil && q.Post != nil {
 					// (the cached copy may still be an orphan when an earlier sync adopted it already)
 					if c := controllerOf(mustParse(q.Post)); c != nil && c.UID == puid {
 						adopted[q.Res.Key()+"|"+q.NS+"|"+q.Name] = true
+					} else if pc := controllerOf(mustParse(q.Pre)); pc != nil && pc.UID == puid {
+						// given up by this very sync (it no longer matches the selector the sync works with)
+						released[q.Res.Key()+"|"+q.NS+"|"+q.Name] = true
 					}
 				}
 			}
@@ -151,7 +155,7 @@ func c03Oracle(w *World, sig map[string]string, shape hookShape, declared []*Res
 				// every cache version the sync could have read must be shown
 				first := w.Cache.View(h.Inc, res, sy.StartStep-1)
 				for _, ck := range viewKeys(first) {
-					if present[ck] {
+					if present[ck] || oldRevision || released[res.Key()+"|"+ck.ns+"|"+ck.name] {
 						continue
 					}
 					if pns != "" && res.Namespaced && ck.ns != pns {
